@@ -79,8 +79,8 @@ def run(ctx):
                 pb.append(q)
         def has_big_vector(p):
             return any(it.startswith("v:") and int(it.split(":")[1]) > 1 for it in (p.get("ineq", "") + ";" + p.get("eq", "")).split(";") if it)
-        ba = runcheck.run_batch(ctx, bdir, A, pa, [], "vector constraints")
-        bb = runcheck.run_batch(ctx, bdir, A, pb, [], "scalar components")
+        ba = runcheck.run_batch(ctx, bdir, A, pa, [], "vector constraints", blame_crash=False)
+        bb = runcheck.run_batch(ctx, bdir, A, pb, [], "scalar components", blame_crash=False)
         # AGS cannot handle constraints of dimension > 1: it must reject them (checked below), so those pairs are not comparable
         keep = [k for k, (p, _, _) in enumerate(ba) if not (A.name(p["alg"]) == "NLOPT_GN_AGS" and has_big_vector(p))]
         runcheck.compare_pairs(ctx, [ba[k][1] for k in keep], [bb[k][1] for k in keep], relate, "pairs (vector | scalars)",
